@@ -20,8 +20,9 @@ def cfg_text(consts, init="Init", next_="Next", invariants=(), extra=""):
     return "\n".join(lines) + "\n"
 
 
-def gen_cases(module, consts, timeout=3000, workers=1, invariant="Emit", simulate=None, seed=None, depth=None):
-    cfg = cfg_text(consts, invariants=[invariant])
+def gen_cases(module, consts, timeout=3000, workers=1, invariant="Emit", simulate=None, seed=None, depth=None,
+              init="Init", next_="Next"):
+    cfg = cfg_text(consts, init=init, next_=next_, invariants=[invariant])
     r = vlib.tlc(module, cfg="gen.cfg", extra_files={"gen.cfg": cfg}, workers=workers, timeout=timeout,
                  simulate=simulate, seed=seed, depth=depth)
     if r.error or r.violated:
@@ -37,11 +38,11 @@ def check_laws(module, consts, invariants=("Laws",), timeout=3000, workers=None)
     return r
 
 
-def validate(module, obs, consts=None, chunk=20000, threads=8, timeout=3000, invariant="Conforms"):
+def validate(module, obs, consts=None, chunk=20000, threads=8, timeout=3000, invariant="Conforms", init="Init", next_="Next"):
     """Returns (sorted list of non-conforming indices (0-based) with the printed record, states visited)."""
     consts = dict(consts or {})
     consts["ObsFile"] = '"obs.ndjson"'
-    cfg = cfg_text(consts, invariants=[invariant])
+    cfg = cfg_text(consts, init=init, next_=next_, invariants=[invariant])
     parts = [(s, obs[s:s + chunk]) for s in range(0, len(obs), chunk)]
 
     def one(p):
